@@ -8,10 +8,11 @@ Input : {"scenarios": [scenario...]}
           "variant": valid|trunc|badclass|badrate|dupname, "cut": permille}   build P, then use the OTHER entry points
          that take the build lock and install a (dummy) current definition: the read-back of add/store/new_from, or the
          reader on the (possibly truncated / damaged) bytes in memory or in a file
+  "pre": [P...] definitions built first (thread nt+1); step {"k": "readback", "pre": i, "how", "variant"} reads one back
   sync [ta, k, tb]: when thread ta reaches instruction k of its FIRST build it releases thread tb and waits until tb
   has announced its first attempt (plus a grace period so that tb really is blocked on the build lock).
 Output: {"traces": [{"id", "kind", "ev": [event...]}]}; every event has all fields (uniform records for TLC):
-  e attempt|enter|mid|leave|exit|read|probe|gc   t thread   b build number   f program key
+  e attempt|enter|mid|leave|exit|rattempt|read|probe|gc   t thread   b build number   f program key
   mine/locked (inside the function: the global context is this definition / the build lock is held)
   raised, err, sha, lost (units of this function attached elsewhere)   ctx_none, lock_free, orphan, wrap (probe:
   SynthDef.wrap worked outside a build)   read: f = how:variant, raised, err
@@ -71,6 +72,8 @@ class Runner:
         self.mutex = threading.Lock()
         self.nb = 0
         self.threaded = False
+        self.desc = False         # also describe every finished definition (C02's concurrent section)
+        self.recs = None          # keep the full build records
         self._tmp = None
         self.nfile = 0
 
@@ -102,10 +105,13 @@ class Runner:
                 self.emit(e='leave', t=t, b=bno, f=key, **state())
 
         try:
-            rec = self.b.build(prog, hook=hook, post=post)
+            rec = self.b.build(prog, hook=hook, post=post, desc=self.desc)
         except Exception as e:
             # anything unexpected around a build is an observation (a build that did not deliver), never a harness crash
             rec = dict(raised=1, err='unexpected-' + type(e).__name__, stage='', sha='', lost=0)
+        if self.recs is not None:
+            with self.mutex:
+                self.recs.append((prog, rec))
         self.emit(e='exit', t=t, b=bno, f=key, raised=rec['raised'], err=rec['err'] + ('@' + rec['stage'] if rec['stage'] else ''),
                   sha=rec['sha'], lost=rec.get('lost', 0))
         return rec
@@ -130,37 +136,57 @@ class Runner:
             return data.replace(b'\x02kb', b'\x02ka', 1)
         return data
 
-    def use(self, t, s):
+    def do_read(self, s, sd, data):
         import io
         import pathlib
         how = s['how']
         sdc = self.b.sdc
-
-        def post(sd, data):
-            b = self.mutate(data, s)
-            try:
-                if how == 'add':
-                    sd.add()
-                elif how == 'store':
-                    sd.store(dir=self.tmpdir())
-                elif how == 'new_from':
-                    sdc.SynthDesc.new_from(sd)
-                elif how == 'read_stream':
-                    sdc.SynthDesc._read_stream(io.BytesIO(b))
-                else:
+        b = self.mutate(data, s)
+        try:
+            if how == 'add':
+                sd.add()
+            elif how == 'store':
+                sd.store(dir=self.tmpdir())
+            elif how == 'new_from':
+                sdc.SynthDesc.new_from(sd)
+            elif how == 'read_stream':
+                sdc.SynthDesc._read_stream(io.BytesIO(b))
+            else:
+                with self.mutex:
                     self.nfile += 1
-                    path = pathlib.Path(self.tmpdir()) / ('f%d.scsyndef' % self.nfile)
-                    path.write_bytes(b)
-                    if how == 'descread':
-                        sdc.SynthDesc.read(path)
-                    else:
-                        sdc.SynthDescLib.get_lib('default').read(path)
-                return dict(raised=0, err='')
-            except Exception as e:        # recorded; what must hold afterwards is the spec's business
-                return dict(raised=1, err=type(e).__name__)
-        rec = self.build(t, s['prog'], s['key'], post=post)
+                    nf = self.nfile
+                path = pathlib.Path(self.tmpdir()) / ('f%d.scsyndef' % nf)
+                path.write_bytes(b)
+                if how == 'descread':
+                    sdc.SynthDesc.read(path)
+                else:
+                    sdc.SynthDescLib.get_lib('default').read(path)
+            return dict(raised=0, err='')
+        except Exception as e:        # recorded; what must hold afterwards is the spec's business
+            return dict(raised=1, err=type(e).__name__)
+
+    def use(self, t, s):
+        rec = self.build(t, s['prog'], s['key'], post=lambda sd, data: self.do_read(s, sd, data))
         out = rec.get('post') or dict(raised=2, err='not-built')
-        self.emit(e='read', t=t, f=how + ':' + s.get('variant', 'valid'), raised=out['raised'], err=out['err'])
+        self.emit(e='read', t=t, f=s['how'] + ':' + s.get('variant', 'valid'), raised=out['raised'], err=out['err'])
+
+    def prebuild(self, t, progs):
+        """definitions built before the threads start; their objects / bytes feed read-backs that RACE with builds"""
+        self.pre = []
+        for k, ent in enumerate(progs):
+            box = {}
+            self.build(t, ent['prog'], ent['key'], post=lambda sd, data: box.update(sd=sd, data=data) or dict(raised=0, err=''))
+            self.pre.append(box)
+
+    def readback(self, t, s):
+        """a read-back on its own (no build in this thread): announced, so that a builder can wait for it"""
+        box = self.pre[s['pre']] if s['pre'] < len(self.pre) else {}
+        self.emit(e='rattempt', t=t, f=s['how'])
+        if 'sd' in box:
+            out = self.do_read(s, box['sd'], box['data'])
+        else:
+            out = dict(raised=2, err='not-built')
+        self.emit(e='read', t=t, f=s['how'] + ':' + s.get('variant', 'valid'), raised=out['raised'], err=out['err'])
 
     def tmpdir(self):
         import tempfile
@@ -178,6 +204,8 @@ class Runner:
                 first = False
             elif s['k'] == 'use':
                 self.use(t, s)
+            elif s['k'] == 'readback':
+                self.readback(t, s)
             elif s['k'] == 'probe':
                 # a probe takes the lock for an instant and creates a unit: only meaningful (and only harmless)
                 # while no other thread can be building, so threaded scenarios probe once, after the join
@@ -199,6 +227,8 @@ class Runner:
 def run_threads(runner, sc):
     runner.threaded = True
     nt = len(sc['threads'])
+    if sc.get('pre'):
+        runner.prebuild(nt + 1, sc['pre'])
     go = [threading.Event() for _ in range(nt)]
     attempted = [threading.Event() for _ in range(nt)]
     waits = {}        # thread -> (k, other)
@@ -223,7 +253,7 @@ def run_threads(runner, sc):
                 deadline = time.time() + TIMEOUT
                 while time.time() < deadline:
                     with runner.mutex:
-                        if any(e['e'] == 'attempt' and e['t'] == tb + 1 for e in runner.log):
+                        if any(e['e'] in ('attempt', 'rattempt') and e['t'] == tb + 1 for e in runner.log):
                             break
                     time.sleep(0.002)
                 time.sleep(GRACE)
